@@ -71,11 +71,9 @@ func runC07(c *Ctx) {
 				continue
 			}
 			for _, r := range *refs {
-				if b, ok := r.(*ssa.BinOp); ok && b.Op == token.NEQ && isNilConst(b.Y) {
-					for _, rr := range *b.Referrers() {
-						if iff, ok := rr.(*ssa.If); ok {
-							errNonNil = iff.Block().Succs[0]
-						}
+				if b, ok := r.(*ssa.BinOp); ok && (b.Op == token.NEQ || b.Op == token.EQL) && (isNilConst(b.Y) || isNilConst(b.X)) {
+					for _, nt := range nilTests(v) {
+						errNonNil = nt.nonNil
 					}
 				}
 				if call, ok := r.(*ssa.Call); ok && callIs(&call.Call, "errors.Is") && call.Call.Args[0] == v {
